@@ -16,7 +16,19 @@ Bounded exhaustive exploration on the real code:
  (iv)  BFS over output-generation histories in pre-populated directories against a reference model of the
        directory: after every step every earlier entry is byte-identical, the reported name did not exist,
        the set of new names is the one the reference predicts, the new file reads back, and
-       estimate(recycle=True) returns the results written last.
+       estimate(recycle=True) returns the results written last;
+ (w)   writer histories: every sequence (bounded length) of write_pickle / write_html / write_latex / write_f12 /
+       dump_on_file on one results object / database x an alphabet of model names (blanks, dots, '~', non-ASCII,
+       leading / trailing blank, long) x pre-populated directories (empty, own earlier files, files of neighbour
+       models whose names are the usual sanitised forms of the model name): after every write every earlier entry
+       is byte-identical, the reported name did not exist before, is the one new entry and reads back;
+ (p)   histories on ONE Parameters object: every sequence (bounded length) of set_value / dump_file(new file) /
+       read_file(earlier dump | pre-existing full file | hand-written partial file) against a reference dictionary:
+       after every step get_value agrees with the reference, every dumped file parses (tomllib) to the current
+       values and a fresh object reads them back;
+ part (i) is run for every identification threshold of a small per-seed alphabet (the threshold is the one
+       configuration value that shapes the reports of a results object): direct load and estimate(recycle=True)
+       by an identically configured BIOGEME object must give the same reports.
 """
 from __future__ import annotations
 
@@ -371,10 +383,19 @@ def _part_i(task, rec):
     import biogeme.results as res
     kind, pool, boot = task['kind'], task['pool'], task['boot']
     keytail = f'kind={kind},boot={int(bool(boot))}'
+    thr_i = int(task.get('thr') or 0)
+    thr = THRESHOLDS[thr_i]
+    cfg = {} if thr is None else dict(identification_threshold=thr)
     case = dict(part='i', kind=kind, pool=pool, boot=boot, table=task.get('table'))
+    if thr_i:
+        keytail += ',threshold=non-default'
+        case['thr'] = thr_i
     d = fresh_dir('i')
     try:
         r, free, fixed = pristine_results(kind, pool, boot, task.get('table'))
+        if thr is not None:
+            # the same raw results as seen by a user working with a non-default identification threshold
+            r = res.bioResults(r.data, identification_threshold=thr)
         rec.sample(dict(case, free=free, estimates={k: float(v) for k, v in r.get_beta_values().items()},
                         loglike=float(r.data.logLike)))
         before = set(os.listdir('.'))
@@ -419,9 +440,10 @@ def _part_i(task, rec):
     d = fresh_dir('i')
     try:
         b, free, fixed = make_model(kind, pool, boot, table=task.get('table'), generate_pickle=True,
-                                    generate_html=bool(pool % 2))
+                                    generate_html=bool(pool % 2), **cfg)
         ra = estimate(b, boot)
-        b2, _, _ = make_model(kind, pool, boot, table=task.get('table'), generate_pickle=True, generate_html=True)
+        b2, _, _ = make_model(kind, pool, boot, table=task.get('table'), generate_pickle=True, generate_html=True,
+                              **cfg)
         listing = sorted(os.listdir('.'))
         try:
             rb = estimate(b2, boot, recycle=True)
@@ -440,6 +462,11 @@ def _part_i(task, rec):
 
 
 # --------------------------------------------------------------------------- part (ii): parameter file
+# identification thresholds (index 0 = the library default); the large one flags every tiny model as "not
+# identified", so that the section of the HTML report that depends on the threshold is exercised
+THRESHOLDS = [None, [1.0e4, 1.0e2, 1.0e6, 512.0][_SEED % 4], [0.0, 1.0e-12, 1.0e-3, 1.0e-300][_SEED % 4]]
+
+
 ALGOS = ['automatic', 'scipy', 'LS-newton', 'TR-newton', 'LS-BFGS', 'TR-BFGS', 'simple_bounds',
          'simple_bounds_newton', 'simple_bounds_BFGS']
 INT_ALPHABETS = [[0, 1, 2, 100], [0, 3, 7, 1000], [1, 5, 64, 2 ** 31], [2, 10, 99, 10 ** 12]]
@@ -1445,6 +1472,392 @@ def bfs_expand(task):
     return out
 
 
+# --------------------------------------------------------------------------- part (w): writer histories x model names
+W_NAMES = ['m14', 'my model', 'a.b', 'M_14-x', 'run.1', 'two  blanks x', 'é β', 'm~00', ' lead', 'trail ',
+           'Mixed Case.v2', 'B_' + 'x' * 70]
+W_OPS = ['pickle', 'html', 'latex', 'f12', 'dump']
+W_ROOTS = ['empty', 'own', 'neighbour']
+W_EXT = dict(pickle='pickle', html='html', latex='tex', f12='F12', dump='dat')
+
+
+def w_depth(tier):
+    return 3 if tier == 'quick' else 4
+
+
+def name_class(n):
+    cls = []
+    if ' ' in n:
+        cls.append('blank')
+    if '.' in n:
+        cls.append('dot')
+    if '~' in n:
+        cls.append('tilde')
+    if any(ord(ch) > 127 for ch in n):
+        cls.append('non-ascii')
+    if len(n) > 60:
+        cls.append('long')
+    return '+'.join(cls) or 'plain'
+
+
+def neighbour_names(n):
+    """The usual sanitised forms of a model name: names another model in the same directory may well carry."""
+    out = []
+    for v in (n.replace(' ', '_'), n.replace(' ', ''), n.replace('.', '_'), n.replace('-', '_'), n.replace('~', '_'),
+              n.strip(), n.lower(), n.upper(), re.sub(r'[^A-Za-z0-9]+', '_', n), n + '_'):
+        if v and v != n and v not in out:
+            out.append(v)
+    return out
+
+
+def w_populate(name, root):
+    stems = {'pickle': name, 'html': name, 'tex': name, 'F12': name, 'dat': f'{name}_dumped'}
+    if root == 'own':
+        for ext, stem in stems.items():
+            for fn in (f'{stem}.{ext}', f'{stem}~01.{ext}'):
+                with open(fn, 'w', encoding='utf-8') as f:
+                    f.write(f'earlier output {fn}\n')
+    elif root == 'neighbour':
+        for v in neighbour_names(name):
+            for ext, stem in stems.items():
+                fn = f'{v}.{ext}' if ext != 'dat' else f'{v}_dumped.dat'
+                with open(fn, 'w', encoding='utf-8') as f:
+                    f.write(f'output of the neighbour model {fn}\n')
+
+
+class WriterHistory:
+    """Repeated output generation of one results object / database whose name comes from the name alphabet."""
+
+    def __init__(self, name, root):
+        _setup()
+        import pandas as pd
+        import biogeme.database as db
+        self.name, self.root = name, root
+        self.dir = fresh_dir('w')
+        w_populate(name, root)
+        self.r, self.free, _ = pristine_results(HKIND, HPOOL, 0)
+        self.r.data.modelName = name
+        self.db = db.Database(name, pd.DataFrame(TABLE))
+        self.snap = snapshot()
+
+    def close(self):
+        leave_dir(self.dir)
+
+    def apply(self, op):
+        r = self.r
+        if op == 'pickle':
+            return r.write_pickle()
+        if op == 'html':
+            r.write_html()
+            return r.data.htmlFileName
+        if op == 'latex':
+            r.write_latex()
+            return r.data.latexFileName
+        if op == 'f12':
+            r.write_f12()
+            return r.data.F12FileName
+        if op == 'dump':
+            return self.db.dump_on_file()
+        raise ValueError(op)
+
+    def step(self, op, content=True):
+        """None or (clause, detail).  Oracle = the statement only: nothing earlier is touched, the reported name is
+        new, it is the one new entry, and it holds what the writer had to write (content=False: the step is a
+        re-execution of a prefix whose content was compared already)."""
+        import biogeme.results as res
+        before = self.snap
+        try:
+            reported = self.apply(op)
+        except Exception as e:
+            return (f'raises-{type(e).__name__}', f'{op} raised {type(e).__name__}: {str(e).splitlines()[0][:80] if str(e) else ""}')
+        after = self.snap = snapshot()
+        for k, v in before.items():
+            if after.get(k) != v:
+                return ('existing-entry-changed', f'{k!r} was {v}, is {after.get(k)} after {op} (reported name {reported!r})')
+        if reported in before:
+            return ('reported-name-existed', f'{op} reported {reported!r}, which existed before as {before[reported]}')
+        if after.get(reported, ('', ''))[0] != 'file':
+            return ('reported-name-not-written', f'{op} reported {reported!r}; directory {sorted(after)}')
+        created = sorted(k for k in after if k not in before)
+        if created != [reported]:
+            return ('reported-name-differs-from-created', f'{op} reported {reported!r}, created {created}')
+        if not content:
+            return None
+        r = self.r
+        if op == 'pickle':
+            try:
+                back = res.bioResults(pickle_file=reported, identification_threshold=r.identification_threshold)
+            except Exception as e:
+                return ('pickle-unreadable', f'{reported}: {type(e).__name__}: {e}')
+            d = deep_diff(dict(vars(r.data)), dict(vars(back.data)), 'data')
+            if d:
+                return ('pickle-differs', f'{reported}: {d}')
+        elif op == 'dump':
+            import pandas as pd
+            back = pd.read_csv(reported, sep='\t', index_col='__rowId')
+            d = deep_diff(self.db.data.astype(float), back.astype(float), 'dump')
+            if d:
+                return ('data-dump-differs', f'{reported}: {d}')
+        else:
+            with open(reported, encoding='utf-8') as f:
+                text = f.read()
+            want = dict(html=r.get_html, latex=r.get_latex, f12=r.get_f12)[op]()
+            if text != want:
+                return ('report-file-differs', f'{reported} is not the report of the object that wrote it: '
+                                               f'{_first_text_diff(want, text)}')
+            missing = [n for n in self.free if n[:10] not in text.replace('\\_', '_')]
+            if missing:
+                return ('report-file-lacks-parameter', f'{reported}: {missing}')
+        return None
+
+
+def _w_histories(depth, first=None):
+    for h in itertools.product(W_OPS, repeat=depth):
+        if first is None or h[0] == first:
+            yield h
+
+
+def _w_violation(rec, name, root, hist, bad):
+    clause, detail = bad
+    rec.violation(f'C14|writer-history:{clause}|op={hist[-1]},name-class={name_class(name)}',
+                  f'{clause} after writer history {list(hist)} for the model name {name!r} in the "{root}" directory: {detail}',
+                  dict(part='w', name=name, root=root, history=list(hist)), observed=detail)
+
+
+def run_writer_history(name, root, hist, seen=None, rec=None):
+    """Executes hist step by step (every prefix is a history of its own); returns (failing index, failure)."""
+    h = WriterHistory(name, root)
+    try:
+        for i, op in enumerate(hist):
+            pre = tuple(hist[:i + 1])
+            bad = h.step(op, content=rec is None or pre not in seen)
+            if rec is not None and pre not in seen:
+                seen.add(pre)
+                ext = W_EXT[op]
+                nt = root != 'empty' or any(W_EXT[o] == ext for o in hist[:i])
+                rec.case(('w', name, root, pre) if nt else None, ('w', name, root, pre, bad[0] if bad else None),
+                         outcome=('w', op, bad[0] if bad else 'ok'))
+                rec.count('writer_history_steps')
+                if bad:
+                    _w_violation(rec, name, root, pre, bad)
+            if bad:
+                return i, bad
+        return None, None
+    finally:
+        h.close()
+
+
+def _part_w(task, rec):
+    name, root = task['name'], task['root']
+    seen = set()
+    failed = set()
+    rec.sample(dict(part='w', name=name, root=root, depth=task['depth'], first=task.get('first'),
+                    neighbours=neighbour_names(name) if root == 'neighbour' else None))
+    for hist in _w_histories(task['depth'], task.get('first')):
+        if any(hist[:k] in failed for k in range(1, len(hist) + 1)):
+            continue   # a prefix already violated: its extensions are not histories of a correct run
+        i, bad = run_writer_history(name, root, hist, seen, rec)
+        if bad:
+            failed.add(tuple(hist[:i + 1]))
+
+
+# --------------------------------------------------------------------------- part (p): histories on one Parameters object
+P_READS = ['read:first', 'read:last', 'read:partial']
+PARTIAL_TOML = '# hand written, partial\n[Unknown]\nfoo = 1\n[{s1}]\n{n1} = {v1}\n[{s2}]\n{n2} = "{v2}"\n'
+
+
+def p_alphabet(seed):
+    """(D0 = deviations of the pre-existing full file, SETS = the set_value alphabet, PARTIAL = entries of the
+    hand-written file).  Chosen from the seed's deviation alphabet: one value per type, distinct parameters, plus a
+    second value for a parameter of D0 (a value read from a file is then overwritten)."""
+    devs = deviations(seed)
+    dflt = {(n, s): v for n, s, t, v in default_parameter_table()}
+    by_type = {}
+    for n, s, v in devs:
+        if n in ('version',) or same_value('', dflt[(n, s)], v):
+            continue
+        by_type.setdefault(type(v).__name__, []).append((n, s, v))
+
+    def pick(tn, k, skip=()):
+        c = [d for d in by_type.get(tn, []) if (d[0], d[1]) not in skip]
+        return c[k % len(c)]
+
+    i0 = pick('int', 1 + seed)
+    b0 = pick('bool', seed)
+    d0 = [i0, b0]
+    i1 = next(d for d in by_type['int'] if (d[0], d[1]) == (i0[0], i0[1]) and d[2] != i0[2])
+    used = {(i0[0], i0[1]), (b0[0], b0[1])}
+    b1 = pick('bool', seed + 3, used)
+    f1 = pick('float', seed + 2, used)
+    s1 = pick('str', seed + 1, used)
+    sets = [i1, b1, f1, s1]
+    used |= {(x[0], x[1]) for x in sets}
+    pi = pick('int', seed + 5, used)
+    pb = pick('bool', seed + 7, used)
+    partial = [pi, pb]
+    return d0, sets, partial
+
+
+class ParamHistory:
+    """set_value / dump_file / read_file on ONE Parameters object, with a reference dictionary alongside."""
+
+    def __init__(self, seed):
+        _setup()
+        from biogeme.parameters import Parameters
+        self.dir = fresh_dir('p')
+        self.d0, self.sets, self.partial = p_alphabet(seed)
+        self.table = default_parameter_table()
+        self.types = {(n, s): t for n, s, t, v in self.table}
+        self.ref = {(n, s): v for n, s, t, v in self.table}
+        first = dict(self.ref)
+        for n, s, v in self.d0:
+            first[(n, s)] = v
+        _params_with(self.d0).dump_file('first.toml')
+        (n1, s1, v1), (n2, s2, v2) = self.partial
+        with open('partial.toml', 'w', encoding='utf-8') as f:
+            f.write(PARTIAL_TOML.format(s1=s1, n1=n1, v1=repr(v1), s2=s2, n2=n2, v2='True' if v2 else 'False'))
+        self.files = {'first.toml': first}       # reference: full content of every full file
+        self.last = None
+        self.p = Parameters()
+        self.cached_by = 'none'                  # witness pattern: what filled the object's document last ...
+        self.set_since = False                   # ... and whether a value changed afterwards
+        self.ndump = 0
+
+    def close(self):
+        leave_dir(self.dir)
+
+    def pattern(self):
+        return f'document-from={self.cached_by},set-since={self.set_since}'
+
+    def _agree(self, obj, want, what):
+        for (n, s), w in want.items():
+            try:
+                got = obj.get_value(n, s)
+            except Exception as e:
+                got = f'<raised {type(e).__name__}>'
+            if not same_value(self.types[(n, s)], w, got):
+                return f'{what}: {s}.{n} is {got!r} ({type(got).__name__}), expected {w!r}'
+        return None
+
+    def step(self, op):
+        """None, 'skip' or (clause, witness, detail)."""
+        import tomllib
+        from biogeme.parameters import Parameters
+        kind, _, arg = op.partition(':')
+        pat = self.pattern()
+        try:
+            if kind == 'set':
+                n, s, v = self.sets[int(arg)]
+                self.p.set_value(n, v, s)
+                self.ref[(n, s)] = v
+                self.set_since = True
+            elif kind == 'read':
+                if arg == 'last':
+                    if self.last is None:
+                        return 'skip'
+                    fn = self.last
+                else:
+                    fn = f'{arg}.toml'
+                before = open(fn, encoding='utf-8').read()
+                self.p.read_file(fn)
+                if open(fn, encoding='utf-8').read() != before:
+                    return ('read-rewrote-the-file', pat, f'read_file({fn!r}) modified the file')
+                if fn in self.files:
+                    self.ref = dict(self.files[fn])
+                else:
+                    for n, s, v in self.partial:
+                        self.ref[(n, s)] = v
+                self.cached_by, self.set_since = 'read', False
+            elif kind == 'dump':
+                fn = f'd{self.ndump}.toml'
+                self.ndump += 1
+                self.p.dump_file(fn)
+                text = open(fn, encoding='utf-8').read()
+                try:
+                    doc = tomllib.loads(text)
+                except Exception as e:
+                    return ('dump-not-valid-toml', pat, f'{fn}: {e}')
+                for (n, s), w in self.ref.items():
+                    got = doc.get(s, {}).get(n, '<absent>')
+                    ok = got in BOOL_SPELLINGS[w] if isinstance(w, bool) else same_value(self.types[(n, s)], w, got)
+                    if not ok:
+                        return ('dump-differs-from-current-values', pat,
+                                f'{fn} holds {got!r} for {s}.{n}, whose current value is {w!r}')
+                q = Parameters()
+                q.read_file(fn)
+                d = self._agree(q, self.ref, f'fresh object after read_file({fn!r})')
+                if d:
+                    return ('dump-read-back-differs', pat, d)
+                self.files[fn] = dict(self.ref)
+                self.last = fn
+                self.cached_by, self.set_since = 'dump', False
+            else:
+                raise ValueError(op)
+        except Exception as e:
+            if isinstance(e, ValueError) and str(e) == op:
+                raise
+            return (f'raises-{type(e).__name__}', f'op={kind},{pat}', f'{op} raised {type(e).__name__}: {str(e)[:120]}')
+        d = self._agree(self.p, self.ref, f'the object after {op}')
+        if d:
+            return ('object-differs-from-reference', f'op={kind},{pat}', d)
+        return None
+
+
+def p_ops():
+    return [f'set:{i}' for i in range(4)] + ['dump'] + P_READS
+
+
+def p_depth(tier):
+    return 3 if tier == 'quick' else 4
+
+
+def _p_violation(rec, hist, bad):
+    clause, witness, detail = bad
+    rec.violation(f'C14|param-history:{clause}|{witness}',
+                  f'{clause} after the history {list(hist)} on one Parameters object: {detail}',
+                  dict(part='p', history=list(hist)), observed=detail)
+
+
+def run_param_history(hist, seen=None, rec=None):
+    h = ParamHistory(_SEED)
+    try:
+        for i, op in enumerate(hist):
+            bad = h.step(op)
+            pre = tuple(hist[:i + 1])
+            if bad == 'skip':
+                if rec is not None and pre not in seen:
+                    seen.add(pre)
+                    rec.count('read_last_without_earlier_dump_skipped')
+                return i, 'skip'
+            if rec is not None and pre not in seen:
+                seen.add(pre)
+                nt = i > 0
+                rec.case(('p', pre) if nt else None, ('p', pre, bad[0] if bad else None),
+                         outcome=('p', op.split(':')[0], bad[0] if bad else 'ok'))
+                rec.count('param_history_steps')
+                if bad:
+                    _p_violation(rec, pre, bad)
+            if bad:
+                return i, bad
+        return None, None
+    finally:
+        h.close()
+
+
+def _part_p(task, rec):
+    seen, dead = set(), set()
+    prefix = tuple(task['prefix'])
+    d0, sets, partial = p_alphabet(_SEED)
+    rec.sample(dict(part='p', prefix=list(prefix), depth=task['depth'], first_file=[list(x) for x in d0],
+                    sets=[list(x) for x in sets], partial_file=[list(x) for x in partial]))
+    for tail in itertools.product(p_ops(), repeat=task['depth'] - len(prefix)):
+        hist = prefix + tail
+        if any(hist[:k] in dead for k in range(1, len(hist) + 1)):
+            continue
+        i, bad = run_param_history(hist, seen, rec)
+        if bad:
+            dead.add(tuple(hist[:i + 1]))
+
+
 # --------------------------------------------------------------------------- tasks
 def _result_specs(tier):
     specs = []
@@ -1490,6 +1903,25 @@ def tasks(tier, seed):
     for s in _result_specs(tier):
         t.append(dict(part='iii', **s))
         t.append(dict(part='i', **s))
+    # (i) under a non-default identification threshold (quick: the large one, results without bootstrap)
+    for s in _result_specs(tier):
+        for thr in ((1,) if tier == 'quick' else (1, 2)):
+            if tier == 'quick' and s['boot']:
+                continue
+            t.append(dict(part='i', thr=thr, **s))
+    # (p) histories on one Parameters object
+    ops = p_ops()
+    for pre in itertools.product(ops, repeat=1 if tier == 'quick' else 2):
+        t.append(dict(part='p', prefix=list(pre), depth=p_depth(tier)))
+    # (w) writer histories x model names x pre-populated directories
+    names = list(W_NAMES) + ([MODEL_NAME] if MODEL_NAME not in W_NAMES else [])
+    for root in W_ROOTS:
+        for name in names:
+            if tier == 'quick':
+                t.append(dict(part='w', name=name, root=root, depth=w_depth(tier)))
+            else:
+                for first in W_OPS:
+                    t.append(dict(part='w', name=name, root=root, depth=w_depth(tier), first=first))
     return t
 
 
@@ -1505,6 +1937,10 @@ def run_task(task):
         _part_iii(task, rec)
     elif part == 'n':
         _part_n(task, rec)
+    elif part == 'w':
+        _part_w(task, rec)
+    elif part == 'p':
+        _part_p(task, rec)
     else:
         raise ValueError(part)
     return rec.result()
@@ -1527,6 +1963,14 @@ def replay(case):
     elif part == 'n':
         _part_n(dict(part='n', name=case['name'], ext=case['ext'], kinds=['absent', 'file', 'dir', 'link']), rec)
         rec.violations = [v for v in rec.violations if v['case'].get('assign') == case.get('assign')] or rec.violations
+    elif part == 'w':
+        i, bad = run_writer_history(case['name'], case['root'], case['history'])
+        if bad:
+            _w_violation(rec, case['name'], case['root'], case['history'][: i + 1], bad)
+    elif part == 'p':
+        i, bad = run_param_history(case['history'])
+        if bad and bad != 'skip':
+            _p_violation(rec, case['history'][: i + 1], bad)
     elif part == 'iv':
         h, i, bad = run_history(case['root'], case['history'])
         try:
